@@ -1417,25 +1417,28 @@ def run_cvt_direct(ctx):
         except error.RemoteError as e:
             raised = e
             impl = 'SE'
-        except (TypeError, IndexError) as e:
+        except Exception as e:          # a Python error on a shape no parsed message has
             raised = e
             impl = 'PYERR'
         case = {'stream': 'cvt-direct', 'rs': rs, 'msg': m}
         ctx.case('cvt-direct', sample=case, nontrivial=m is not None)
         ctx.stat('cvt:' + impl.split(' ')[0])
-        if out is not None and out[i] != impl:
-            ctx.disagree('cvt-direct', case, out[i], impl)
-        # oracle (reply convention) on shapes a parsed message can have
+        # shapes a parsed message can have: signature absent / empty exactly when there is no value.  What the
+        # function does on other shapes (TypeError today) is nobody's business: run, never compared
         wellformed = m is None or ((m[1] is None) == (not m[0]) and (m[1] is None or len(m[1]) > 0))
         if not wellformed:
+            ctx.stat('cvt:shape-no-parsed-message-has')
             continue
+        if out is not None and out[i] != impl:
+            ctx.disagree('cvt-direct', case, out[i], impl)
         if m is None:
             if not (raised is None and val is None):
                 ctx.violation('reply-convention', '_cbCvtReply(None) must give None', case, impl, 'N')
             continue
         have = m[0] or ''
         vals = m[1] or []
-        declared = None if rs in ('K', '__DBUS_NO_RETURN_VALUE') else rs
+        sentinel = client._NO_CHECK_RETURN      # a str today; an object() would equal no string
+        declared = None if (rs == 'K' or (isinstance(sentinel, str) and rs == sentinel)) else rs
         if rs is None:
             if isinstance(raised, error.RemoteError):
                 continue
